@@ -75,6 +75,7 @@ def shapeOf (k : Kase) : Option Shape :=
   | "bchan" => some (.feeder { cap := k.buf, onceGo := false, srcChecksCtx := true, eager := true })
   | "dtmap" | "adtmap" => some (.feeder { cap := 0, onceGo := false, srcChecksCtx := false, eager := false })
   | "merge" => some (.fanIn { cap := 0, srcChecksCtx := true, closerCtx := true } n false)
+  | "merge0" => some (.fanIn { cap := 0, srcChecksCtx := true, closerCtx := true } 0 false)   -- MergeIterators()
   | "genpar" | "itgen" => some (.fanIn { cap := 2 * n + 1, srcChecksCtx := true, closerCtx := true, invalid := k.badopts } n true)
   | "split" | "chanread" =>
     some (.fanOut { n := n, hasOut := false, outCap := 0, hasCloser := false, closerCtx := false, onceGo := false, lazy := false, workerCancels := false })
